@@ -138,6 +138,8 @@ def tags(t):
         elif ev == "cl_end": s.add("cloud_call")
         elif ev in ("put_end", "del_end") and not r["ok"]: s.add("db_write_fault")
         elif ev == "env_disturb": s.add("gc_cleanup_fault")
+        elif ev == "reset" and r.get("conf", {}).get("realk8s"): s.add("real_k8s_client")
+        elif ev == "k8s_podexist" and r["exist"] and "real_k8s_client" in s: s.add("watch_cache_lagged_behind_running_pod")
     return s
 
 
